@@ -165,7 +165,7 @@ FP = 'loki/transformations/transpile/fortran_python.py'
 MUTANTS = [
     Mutant('dependency-drops-flag', 'loki/transformations/build_system/dependency.py', "    renames_items = True\n    creates_items = True\n",
            "    creates_items = True\n", expect=('R1', 'DependencyTransformation'), quick=True),
-    Mutant('duplicate-drops-flag', 'loki/transformations/dependency.py', "    creates_items = True\n\n    reverse_traversal = True\n\n    def __init__(self, duplicate_kernels",
+    Mutant('duplicate-drops-flag', 'loki/transformations/dependency.py', "    creates_items = True\n    reverse_traversal = True\n\n    def __init__(self, duplicate_kernels",
            "    reverse_traversal = True\n\n    def __init__(self, duplicate_kernels", expect=('R2', 'DuplicateKernel')),
     Mutant('scheduler-rekey-on-creates', 'loki/batch/scheduler.py', "        if transformation.renames_items:\n            self.rekey_item_cache()",
            "        if transformation.creates_items:\n            self.rekey_item_cache()", expect=('R3', 'rekey_item_cache')),
